@@ -12,6 +12,11 @@ seam checks through the trace hook (they localise a failure and tie the stage mo
   B  selected reads ⊆ candidate reads (C07)                      -> ctx.disagree
   C  solver: reported cost 0 (theorem errfree_truth_cost_zero + dp_optimal); the Lean model's dpCost of the traced
      instance equals the reported cost (C01 correspondence on real pipeline instances) -> ctx.disagree
+  A->B->C as one chain (Props.C02.pipeline_truth_from_raw_reads / checked_precondition_sound): read selection keeps candidates
+     unchanged (Lean `c02.select` == traced selected reads), >= 2 variants each, solver reads == kept reads, solver columns ==
+     their positions (keys seam-select, seam-columns), and the Lean precondition `rawPreconditionB` itself (mkInst succeeds,
+     trusted het genotypes, biallelic truth, every read an error-free copy) holds on the traced solver input with the
+     generator's truth (`c02.errfree`, key seam-errfree)
 """
 import json, os, shutil
 
@@ -32,7 +37,10 @@ MANIFEST = dict(
          "end-to-end predicate (every phase set = truth up to swap) is evaluated on every output",
     design_ref="DESIGN.md §5 C02",
     note="stage A (allele detection) contract is a theorem only for the logic modelled under C06; here it is checked as a "
-         "seam on every run. trusted: Lean kernel, hand-written models, pysam/htslib, generator's notion of 'well separated'",
+         "seam on every run — since E09 by the Lean precondition itself (rawPreconditionB, sound by checked_precondition_sound) on the "
+         "traced solver input; pipeline_truth_from_raw_reads composes stage A's per-read contract, any read selection and the "
+         "ColumnIterator conversion (C01.mkInst) into ErrFree. trusted: Lean kernel, hand-written models, pysam/htslib, generator's "
+         "notion of 'well separated'",
     technique="Lean 4 proof (zero-cost uniqueness + DP optimality composition) + ground-truth pipeline differential with seam checks",
 )
 
@@ -147,6 +155,7 @@ def run(ctx):
     else:
         cases = [c for _, c in ctx.corpus()] + cases
     model_reqs, model_meta = [], []
+    glue_reqs, glue_meta = [], []
     try:
         for case in cases:
             import random
@@ -295,6 +304,43 @@ def run(ctx):
                     for r in cand["selected"]:
                         if (r["name"], r["source_id"]) not in names:
                             ctx.disagree("seam B: selected read not among candidates", desc, r["name"], None)
+                # ---- seams A -> B -> C as the Lean composition states them (Props.C02.pipeline_truth_from_raw_reads):
+                # B: selection keeps candidates UNCHANGED (model `selectReads` on the candidates' variants and the indices of
+                #    the kept reads == the traced selected reads), every kept read has >= 2 variants, the solver's read set is
+                #    exactly the kept reads of the family, its columns are exactly their positions
+                fam = tr["family"]
+                kept = []
+                for s in fam:
+                    cand = tr["candidates"][s]
+                    index = {}
+                    for i, r in enumerate(cand["reads"]):
+                        index.setdefault((r["name"], r["source_id"]), i)
+                    sel = [index.get((r["name"], r["source_id"])) for r in cand["selected"]]
+                    if None not in sel:
+                        glue_reqs.append({"op": "c02.select", "cands": [{"ind": 0, "variants": [list(v) for v in r["variants"]]} for r in cand["reads"]],
+                                          "sel": sel})
+                        glue_meta.append((desc, ("select", [[list(v) for v in r["variants"]] for r in cand["selected"]], s)))
+                    for r in cand["selected"]:
+                        if len(r["variants"]) < 2:
+                            ctx.fail(f"seam B: read {r['name']} with {len(r['variants'])} variant(s) was handed on by read selection", desc, key="seam-select")
+                        kept.append((r["name"], r["source_id"], r["sample_id"], json.dumps(r["variants"])))
+                solver_reads = [(r["name"], r["source_id"], r["sample_id"], json.dumps(r["variants"])) for r in tr["all_reads"]]
+                if sorted(kept) != sorted(solver_reads):
+                    ctx.fail("seam B/C: the solver's read set is not the set of reads kept by read selection: "
+                             + str(sorted(set(kept) ^ set(solver_reads))[:3]), desc, key="seam-select")
+                want_pos = sorted({v[0] for r in tr["all_reads"] for v in r["variants"]})
+                if list(tr["accessible_positions"]) != want_pos:
+                    ctx.fail(f"seam C: the solver's columns {tr['accessible_positions'][:8]}… are not the positions of its reads {want_pos[:8]}…",
+                             desc, key="seam-columns")
+                # A+B+C: the precondition of the solver theorems, evaluated by the Lean definition itself on the traced solver
+                #        input with the generator's truth (sound by Props.C02.checked_precondition_sound)
+                if len(fam) == 1:
+                    s0 = fam[0]
+                    h0 = sc.haps[(s0, chrom)][0]
+                    truth_list = [[v.pos, h0[i]] for i, v in enumerate(sc.variants[chrom])]
+                    src_list = [truth_of_read[(rd["source_id"], rd["name"])][1] == 1 for rd in tr["all_reads"]]
+                    glue_reqs.append({"op": "c02.errfree", "raw": trace_to_raw(tr), "truth": truth_list, "src": src_list})
+                    glue_meta.append((desc, ("errfree", None, s0)))
                 if tr["cost"] != 0:
                     ctx.disagree("seam C: solver cost for error-free reads", desc, tr["cost"], 0)
                 raw = trace_to_raw(tr)
@@ -318,6 +364,17 @@ def run(ctx):
                              expect, ans)
         elif ans.get("cost") != expect:
             ctx.disagree("c01.cost on traced pipeline instance", desc, expect, ans.get("cost", ans))
+    # glue requests are small (answers: a few booleans / the kept reads): one at a time as well, for the same reason
+    ctx.dist("glue_requests", min(len(glue_reqs), 400) // 50 * 50)
+    for (desc, (what, expect, sample)), ans in zip(glue_meta, (ctx.model.ask_many([r])[0] for r in glue_reqs)):
+        if what == "select":
+            got = [r["variants"] for r in ans] if isinstance(ans, list) else ans
+            if got != expect:
+                ctx.fail(f"seam B: the reads kept by read selection for {sample} are not unchanged candidates (model selectReads on the "
+                         f"candidates differs from the traced selected reads)", desc, key="seam-select")
+        elif not (isinstance(ans, dict) and ans.get("ok") is True):
+            ctx.fail(f"seams A-C: the traced solver input of {sample} does not satisfy the precondition of the solver theorems "
+                     f"(Lean rawPreconditionB: {ans})", desc, key="seam-errfree")
 
 
 def trace_to_raw(tr):
